@@ -96,4 +96,11 @@ class HH(Channel):
 
 
 def _vtrap(x, y):
-    return x / (save_exp(x / y) - 1.0)
+    # `x / (exp(x / y) - 1)` is 0/0 at `x=0`: use the series expansion there. The inner
+    # `where` keeps the gradient finite.
+    z = x / y
+    is_small = jnp.abs(z) < 1e-5
+    safe_z = jnp.where(is_small, 1.0, z)
+    return y * jnp.where(
+        is_small, 1.0 - z / 2.0 + z**2 / 12.0, safe_z / (save_exp(safe_z) - 1.0)
+    )
